@@ -183,6 +183,12 @@ func GenCaseOpt(r *core.Rng, id int, getter bool) *conv.Case {
 			cfg.StructReferences = true
 		}
 	}
+	if id%12 == 5 {
+		// one typename for two different abstract types (after a legitimate reuse): must be rejected
+		if tt := gen.TripleTypenameAbstractOp(s, "T3"); tt != nil {
+			defs = []*gen.Def{tt}
+		}
+	}
 	if id%12 == 11 {
 		// a program that must be REJECTED (flatten next to an explicit __typename): alone, so
 		// that a generator that accepts it is judged on it
